@@ -1156,6 +1156,11 @@ class comp(exp):
         # once simplified, it may be reduced to 1 part, so:
         if (0, res.size) in res.parts.keys():
             res = res.parts[(0, res.size)]
+            if res._is_cst and res.sf != self.sf:
+                # keep the signedness declared on the composition
+                # (on a fresh constant: the part may be shared)
+                res = cst(res.v, res.size)
+                res.sf = self.sf
         return res
 
     def copy(self):
